@@ -247,6 +247,7 @@ type cliCase struct {
 	Ignore      bool
 	Drops       bool   // constant-mode shape in which drops are certain by construction
 	ViaFile     bool   // the same users run described by a config file (limits mapped by `run file`)
+	PrevRun     bool   // the same F1 instance has executed another command before, with generous tolerances
 	Profile     string // "" | "mem" | "cpu": the run is profiled (--memprofile / --cpuprofile), which must not touch the verdict
 }
 
@@ -270,12 +271,17 @@ func TestProp_CLIVerdict(t *testing.T) {
 		}
 		c.ViaFile = rapid.IntRange(0, 2).Draw(rt, "viaFile") == 0
 		c.Profile = rapid.SampledFrom([]string{"", "", "", "mem", "cpu"}).Draw(rt, "profile")
+		c.PrevRun = rapid.IntRange(0, 2).Draw(rt, "prevRun") == 0
 		var passed, failed atomic.Uint64
 		planFail := func(id uint64) bool {
 			return (c.FailEvery > 0 && id%uint64(c.FailEvery) == 0) || id <= uint64(c.FailFirst)
 		}
+		var judging atomic.Bool
 		scenario := func(*f1testing.T) f1testing.RunFn {
 			return func(it *f1testing.T) {
+				if !judging.Load() {
+					return // the earlier command's iterations pass and are not counted
+				}
 				id, _ := strconv.ParseUint(it.Iteration, 10, 64)
 				if c.Drops {
 					time.Sleep(150 * time.Millisecond)
@@ -332,6 +338,13 @@ func TestProp_CLIVerdict(t *testing.T) {
 		if c.Ignore && !c.ViaFile {
 			args = append(args, "--ignore-dropped")
 		}
+		if c.PrevRun {
+			// every command line stands for itself: tolerances given to an earlier command on the same
+			// F1 instance must not carry over to a command that does not give them
+			_ = app.ExecuteWithArgs([]string{"run", "users", "verif_cli", "-v", "--max-iterations", "2", "--concurrency", "1", "--max-duration", "5s",
+				"--max-failures", "1000000", "--max-failures-rate", "100", "--ignore-dropped"})
+		}
+		judging.Store(true)
 		if c.Profile != "" {
 			prof := filepath.Join(cliDir, fmt.Sprintf("%s-%d.pprof", c.Profile, cliSeq.Add(1)))
 			defer os.Remove(prof)
@@ -351,6 +364,9 @@ func TestProp_CLIVerdict(t *testing.T) {
 			}
 			if c.Profile != "" {
 				cl = append(cl, "profiled")
+			}
+			if c.PrevRun {
+				cl = append(cl, "after-an-earlier-command")
 			}
 			stats.Case("cli", fmt.Sprintf("%+v", c), vc.nontrivial(), cl, func() any { return c })
 			if (err != nil) != want {
